@@ -232,7 +232,7 @@ PUnch == UNCHANGED pvars
 LinkStart(lp) == /\ tpc[Top(lp)] = "going" /\ LinkReady(lp) /\ lp \notin linked
                  /\ Start(lp) /\ PUnch
 LinkStep(lp) == /\ tpc[Top(lp)] = "going"
-                /\ (Lock(lp) \/ Check(lp) \/ Patch(lp) \/ BuildStart(lp) \/ BuildDone(lp) \/ StampStart(lp) \/ StampDone(lp) \/ RunLinker(lp))
+                /\ (Lock(lp) \/ Check(lp) \/ Patch(lp) \/ BuildStart(lp) \/ BuildDone(lp) \/ Rename(lp) \/ StampStart(lp) \/ StampDone(lp) \/ RunLinker(lp))
                 /\ PUnch
 LinkUnlock(lp) == /\ tpc[Top(lp)] = "going" /\ Unlock(lp)
                   /\ linked' = linked \cup {lp}
@@ -240,7 +240,7 @@ LinkUnlock(lp) == /\ tpc[Top(lp)] = "going" /\ Unlock(lp)
 (* the linker fails, or PatchLinker returns an error: the lock is released, no binary *)
 LinkFail(lp) == /\ MayFail /\ tpc[Top(lp)] = "going" /\ lock = lp /\ pc[lp] \in {"patch", "build", "ran"}
                 /\ lock' = "none" /\ pc' = [pc EXCEPT ![lp] = "done"]
-                /\ UNCHANGED <<stamp, bin, used, kills, damages>> /\ PUnch
+                /\ UNCHANGED <<stamp, bin, tmp, used, kills, damages>> /\ PUnch
 
 (* ------------------------------------------------------------------ kill -9 of a whole process group *)
 (* f with every element of S mapped to v (written with EXCEPT so that TLC keeps an explicit function) *)
@@ -254,7 +254,7 @@ PKill(t) ==
   /\ kpc' = MapOver(kpc, {k \in KidsOf(t) : Live(k)}, "killed")
   /\ lock' = IF lock \in LinksOf(t) THEN "none" ELSE lock
   /\ pc' = MapOver(pc, {lp \in LinksOf(t) : pc[lp] # "idle"}, "done")
-  /\ UNCHANGED <<stamp, bin, used, damages>>
+  /\ UNCHANGED <<stamp, bin, tmp, used, damages>>
   /\ UNCHANGED <<texit, env, dirs, created, removed, gocache, gkeys, akeys, named, wrotein, linked>>
 
 PStep(t) == CmdStart(t) \/ EarlyFail(t) \/ SharedCreate(t) \/ GoStart(t) \/ GoDone(t) \/ Cleanup(t)
@@ -291,5 +291,5 @@ PTypeOK == /\ tpc \in [Tops -> {"idle", "started", "shared", "going", "godone", 
 (* liveness: without kills every started command finishes, successfully unless a tool failed *)
 PAllFinish == <>(\A t \in Tops : tpc[t] \in {"cleaned", "killed"})
 
-PView == <<lock, stamp, bin, pc, used, tpc, texit, env, dirs, created, removed, kpc, gocache, gkeys, akeys, named, linked>>
+PView == <<lock, stamp, bin, tmp, pc, used, tpc, texit, env, dirs, created, removed, kpc, gocache, gkeys, akeys, named, linked>>
 =============================================================================
